@@ -41,7 +41,7 @@ package proxy
 
 // A 304 renews the stored entry: its lifetime is set to now + the configured default,
 // nothing else in the record is touched, and the stored body is handed out again.
-//@ props C06 C09 C16 C15 C02 C05
+//@ props C06 C09 C16 C15 C02 C05 C03
 //@ func fetcher.handleUpstream304
 //@   nopanic
 //@   assigns cache. map_map_cache.CacheKey atomic.Int64 ghost:mapsum ghost:fsinode ghost:jsize ghost:mbytes ghost:mentries ghost:jexp ghost:handleinode ghost:callcount
@@ -51,6 +51,9 @@ package proxy
 //@   ensures [C09] err == nil ==> specEntryShape(cached)
 //@   ensures [C09,C05] err != nil ==> cached == nil && iserr(err, ErrUpdateCacheMetadata) && !iserr(err, ErrSendRequestFailed) && !iserr(err, ErrCacheResponseFailed)
 //@   ensures specFetchErr(err)
+// The entry handed back is read after the renewal: the lifetime reported with the revalidated
+// response is the renewed one.
+//@   ensures [C03,C06] err == nil ==> cached.Expires == cached.Metadata.Expires
 
 //@ props C06 C16 C15
 //@ func fetcher.handleUpstream304$1
@@ -401,7 +404,7 @@ package proxy
 //@   ghost callsite-requires [C02] processRequest sid(arg_key.Hex) == specKeyHex(proxyReq.TLS != nil ? sid("https") : sid("http"), sid(proxyReq.Method), sid(proxyReq.Host), escpath(sid(proxyReq.URL.Path), sid(proxyReq.URL.RawPath)), sid(proxyReq.URL.RawQuery))
 //@   nopanic
 //@   assigns HeaderDirectives http.Request@proxyReq new:http.Request url.URL new:http.Response map_ ghost:upstream ghost:sfleader ghost:sfshared ghost:sferrs cache. map_map_cache.CacheKey atomic.Int64 ghost:mapsum ghost:fsinode ghost:jsize ghost:mbytes ghost:mentries ghost:jexp ghost:handleinode ghost:isize ghost:icontent responder. ghost:httpstatus ghost:httpwrites ghost:respbody ghost:httperrs ghost:callcount metrics.
-//@   requires [C10] specRespEmpty(r)
+//@   requires [C10,C01] specRespEmpty(r)
 //@   requires p.cfg != nil && aset(p.cfg.Proxy.RetryOnInvalidRange.value) && specFetcher(p.fetch) && proxyReq != nil && proxyReq.URL != nil && specHdrOK(proxyReq.Header)
 //@   ghost callsite-requires [C06] processRequest specNoConditionals(arg_req.Header) && arg_req == proxyReq
 //@   ensures [C16] httpwrites(r) >= old(httpwrites(r)) + 1
@@ -419,7 +422,7 @@ package proxy
 //@ spec func specProxy(p ptr) bool = p.cfg != nil && aset(p.cfg.Proxy.RetryOnInvalidRange.value) && specFetcher(p.fetch) && p.ca != nil
 // The certificate asked for is the one for the CONNECT target, and it is the one the TLS
 // server side of the tunnel presents.
-//@ props C10 C16 C11
+//@ props C10 C16 C11 C01
 //@ func Proxy.handleCONNECT
 //@   requires specProxy(p) && proxyReq != nil
 //@   ghost callsite-requires [C11] GetCertForHost sid(arg_host) == sid(proxyReq.Host)
